@@ -1029,9 +1029,20 @@ func c15Order(r *Run, s *c15Sel, apps []c15Append) {
 		r.Check("C15.R6", "sort precedes the selection loop", pos, shortFunc(fn), "the sort of the candidates runs after the node List and before the loop that takes new nodes", before, "")
 		var less *ssa.Function
 		var mc *ssa.MakeClosure
-		if m, ok := sortCall.Call.Args[1].(*ssa.MakeClosure); ok {
+		switch m := sortCall.Call.Args[1].(type) {
+		case *ssa.MakeClosure:
 			mc = m
 			less, _ = m.Fn.(*ssa.Function)
+		case *ssa.Function:
+			less = m
+		case *ssa.Call:
+			// a function that builds and returns the comparator
+			if cal := repoCalleeC(&m.Call); cal != nil {
+				if rv, ok := s.al.resultOf(cal, 0).(*ssa.MakeClosure); ok {
+					mc = rv
+					less, _ = rv.Fn.(*ssa.Function)
+				}
+			}
 		}
 		good, why := false, "the comparator is not a function literal"
 		if less != nil && len(less.Params) == 2 {
@@ -1113,65 +1124,49 @@ func c15Less(s *c15Sel, less *ssa.Function, mc *ssa.MakeClosure) (bool, string) 
 		if !okx || !oky {
 			return false, "operands are not map lookups"
 		}
-		which := func(l *ssa.Lookup) (*ssa.Parameter, ssa.Value) {
+		// the keys are items[i].Name / items[j].Name for one slice `items` that denotes <listed nodes>.Items:
+		// captured directly, or handed to the function that builds the comparator (free variables and
+		// parameters are resolved to what the selection function bound them to)
+		which := func(l *ssa.Lookup) (*ssa.Parameter, bool) {
 			root, p := accessPath(unwrap(l.Index))
 			ia, ok := root.(*ssa.IndexAddr)
 			if !ok || !pathIsMetaC(p, "Name") {
-				return nil, nil
+				return nil, false
 			}
 			pr, _ := ia.Index.(*ssa.Parameter)
-			// the indexed slice is <nodeList>.Items
-			r2, p2 := accessPath(ia.X)
-			if !pathIsC(p2, "Items") {
-				return nil, nil
+			for _, st := range ipPathsC(s.al, ia.X) {
+				if pathIsC(st.Path, "Items") && s.sameList(st.Root) {
+					return pr, true
+				}
 			}
-			return pr, r2
+			return pr, false
 		}
-		px, rx := which(lx)
-		py, ry := which(ly)
+		px, okLx := which(lx)
+		py, okLy := which(ly)
 		if px != pi || py != pj {
 			return false, "the comparison is not restarts[items[i].Name] < restarts[items[j].Name] (operands swapped or other keys)"
 		}
-		// free variables: the node list and the restart map of the enclosing function
-		bind := func(v ssa.Value) ssa.Value {
-			if ld, ok := v.(*ssa.UnOp); ok && ld.Op == token.MUL {
-				v = ld.X
-			}
-			fv, ok := v.(*ssa.FreeVar)
-			if !ok || mc == nil {
-				return nil
-			}
-			for i, f := range less.FreeVars {
-				if f == fv && i < len(mc.Bindings) {
-					return mc.Bindings[i]
+		if !okLx || !okLy {
+			return false, "the compared items are not elements of the freshly listed node list"
+		}
+		// the restart map: made by the selection function or by the helper that counts the restarts
+		mapOf := func(v ssa.Value) *ssa.MakeMap {
+			for _, st := range ipPathsC(s.al, v) {
+				if len(st.Path) != 0 {
+					continue
+				}
+				if m, ok := st.Root.(*ssa.MakeMap); ok {
+					return m
+				}
+				if m, ok := s.al.canon(st.Root).(*ssa.MakeMap); ok {
+					return m
 				}
 			}
 			return nil
 		}
-		lb := bind(rx)
-		if lb == nil || bind(ry) != lb {
-			return false, "the compared items are not elements of one captured node list"
-		}
-		if !s.sameList(lb) {
-			// captured variable cell holding the list object
-			al, isA := lb.(*ssa.Alloc)
-			if !isA || spillOfC(al) == nil || !s.sameList(spillOfC(al)) {
-				return false, "the captured list is not the freshly listed node list"
-			}
-		}
-		mb := bind(lx.X)
-		if mb == nil || bind(ly.X) != mb {
-			return false, "the two lookups do not use one captured map"
-		}
-		// the restart map: made by the selection function or by the helper that counts the restarts
-		var mm *ssa.MakeMap
-		switch m := mb.(type) {
-		case *ssa.MakeMap:
-			mm = m
-		case *ssa.Alloc:
-			if sv := spillOfC(m); sv != nil {
-				mm, _ = s.al.canon(sv).(*ssa.MakeMap)
-			}
+		mm := mapOf(lx.X)
+		if mm == nil || mapOf(ly.X) != mm {
+			return false, "the two lookups do not use one restart map"
 		}
 		if mm == nil {
 			return false, "the restart map is not a map made by the selection function or a helper it calls"
